@@ -3,7 +3,8 @@
 (* C18 -- trace layer.  One ndjson line per case served by the REAL router *)
 (* (kprapi.Server.setupRouter, hooked), with the observations of each      *)
 (* repetition of the request:                                              *)
-(*   {k:"case", stack, ui, m, t, sps, w, h, target, obs: [{status, bk,     *)
+(*   {k:"case", stack, ui, flavour, cfg, m, t, sps, w, h, target,          *)
+(*    obs: [{status, bk,                                                   *)
 (*    effect, panic}, ...]}  (+ order, inst: construction order of the     *)
 (*    servers of the child process the line comes from)                    *)
 (*   {k:"hist", stack, w, reqs: [{m,t,sps,h,target}..], obs: [o1, o2, ..], *)
@@ -34,10 +35,16 @@ ReqOK(r) ==
     /\ r.target = Target(SpellAll(BasePath(Tpl(r.t)), r.sps))
     /\ HdrOK(r.h)
 
+\* supply path: a line of a server obtained through a flavour constructor is JUDGED with what the
+\* operator configured and must CONFORM to the setting the code-shaped supply path yields
+LineJudgedW(line) == IF line.flavour = "direct" THEN line.w ELSE ConfiguredWrite(line.flavour, line.cfg)
+LineEffectiveW(line) == IF line.flavour = "direct" THEN line.w ELSE FlavourWrite(line.flavour, line.cfg)
+
 \* k = "case": one request, obs = its repetitions (each on another instance)
 SpecAllowsCase(line) ==
     /\ ReqOK(line)
-    /\ \A i \in DOMAIN line.obs : \E r \in ServeReq(line, line.w, line.stack, line.ui) : Allowed(line.obs[i], r)
+    /\ line.flavour = "direct" \/ (line.flavour \in Flavours /\ line.cfg \in {"unset", "true", "false"} /\ line.w = LineJudgedW(line))
+    /\ \A i \in DOMAIN line.obs : \E r \in ServeReq(line, LineEffectiveW(line), line.stack, line.ui) : Allowed(line.obs[i], r)
 
 \* k = "hist": reqs served one after the other by one instance; the spec is stateless, so each
 \* observation must be a response the request gets alone
@@ -60,7 +67,7 @@ SpecAllowsConc(line) ==
          \E i \in DOMAIN line.reqs : \E r \in ServeReq(line.reqs[i], line.w, line.stack, FALSE) : r.effect = line.eff[k]
 
 LineViol(line) ==
-    CASE line.k = "case" -> Failed(line.m, line.t, line.sps, line.w, line.obs)
+    CASE line.k = "case" -> Failed(line.m, line.t, line.sps, LineJudgedW(line), line.obs)
       [] line.k = "hist" -> FailedHist(line.w, line.reqs, line.obs, line.ref)
       [] line.k = "conc" -> FailedConc(line.w, line.reqs, line.obs, line.eff)
 
